@@ -102,8 +102,10 @@ def _is_arr(o):
 
 
 class NaNValue:
-    """Explicit NaN produced by sqrt/log of a negative or x/0 in 'nan' mode."""
+    """Explicit NaN produced by sqrt/log of a negative, or the undefined result of x/0 in 'nan' mode
+    (kind 'div0': c/0 with c != 0, i.e. +-inf of unknown sign; 0/0 is a plain NaN)."""
     is_nan = True
+    kind = 'nan'
 
     def _n(self, *_a, **_k):
         return self
@@ -134,6 +136,8 @@ class NaNValue:
 
 
 NAN = NaNValue()
+DIV0 = NaNValue()
+DIV0.kind = 'div0'
 
 
 class SymBool:
@@ -401,9 +405,22 @@ def _div(num, den):
     den_s = z3.simplify(den)
     if z3.is_rational_value(den_s):
         if den_s.numerator_as_long() == 0:
+            if eng.div0 == 'nan':
+                eng.flags.add('div0')
+                return NAN if eng.branch(z3.simplify(num == 0), tag='div0.numerator==0') else DIV0
             return eng.on_div0()
         return SymReal(z3.simplify(num / den_s))
+    if eng.div0 == 'assume' and not eng.is_pos(den_s):
+        # restrict to the domain where the expression is defined (stated as an assumption by the caller)
+        eng.assume(den_s != 0, silent=True)
+        return SymReal(z3.simplify(num / den_s))
     if not eng.is_pos(den_s) and eng.branch(den_s == 0, tag='div0'):
+        if eng.div0 == 'nan':
+            # IEEE / numpy semantics: 0/0 = nan, c/0 = +-inf
+            eng.flags.add('div0')
+            if eng.branch(z3.simplify(num == 0), tag='div0.numerator==0'):
+                return NAN
+            return DIV0
         return eng.on_div0()
     return SymReal(z3.simplify(num / den_s))
 
@@ -661,7 +678,7 @@ class Engine:
     def on_div0(self):
         self.flags.add('div0')
         if self.div0 == 'nan':
-            return NAN
+            return DIV0
         raise SymZeroDivision("division by zero (symbolic path)")
 
     def on_lognonpos(self):
